@@ -133,7 +133,11 @@ def const_exprs(k):
                 exact = {"+": x + y, "-": x - y, "*": x * y, "<<": (x << y) if 0 <= y < 64 else 0}.get(op, 0)
                 if not -(1 << 63) <= exact < (1 << 63): continue      # constant arithmetic that overflows is rejected at compile time by design
                 if v is not UNDEF and v == k:
-                    key = (op, "neg" if (x < 0 or y < 0) else "big" if (abs(x) > 255 or abs(y) > 255) else "small")
+                    shape = "neg" if (x < 0 or y < 0) else "big" if (abs(x) > 255 or abs(y) > 255) else "small"
+                    # operand diversity: a folding rule that uses a neighbouring operator (| for ^, + for |, - for ^ ...) agrees with the right one on many
+                    # operand pairs, so keep one pair per relation between the operands
+                    rel = "same" if x == y else "zero-operand" if (x == 0 or y == 0) else "shared-bits" if (x & y) else "disjoint-bits"
+                    key = (op, shape + ":" + rel)
                     if key not in out:
                         out[key] = e; found += 1
     for x in V:
@@ -267,7 +271,7 @@ def main():
     ck.cov["programs"] = n13 + n2 + n4
     ck.cov["rule"] = ("twin families: (1,3) every distinct C04 condition with strings etc. run normally, in fast mode and as `(C) or filesize < 0`; (2) every 4-byte "
                       "window of 14 pool strings ranked best through an atom quality table, match lists vs default; (4) 15 templates x border K x {literal, one "
-                      "constant expression per operator and operand class with run-time value K, external with compile-time value K, external redefined to K at "
+                      "constant expression per operator, operand class and operand relation (same / zero operand / shared bits / disjoint bits) with run-time value K, external with compile-time value K, external redefined to K at "
                       "rules level and at scanner level}; each twin is one case, every case is compared with its twin and with the reference evaluator")
     ck.assumptions += ["fold-vs-VM agreement is judged by the reference evaluator's run-time value"]
     ck.finish()
